@@ -899,10 +899,14 @@ class _SFTPFileCopier(_SFTPParallelIO[int]):
             else:
                 ranges = _request_nonsparse_range(0, self._total_bytes)
 
+            data_end = 0
+
             if self._srcfs == self._dstfs and \
                     isinstance(self._srcfs, SFTPClient) and \
                     self._srcfs.supports_remote_copy:
                 async for offset, length in ranges:
+                    data_end = max(data_end, offset + length)
+
                     await self._srcfs.remote_copy(
                         cast(SFTPClientFile, self._src),
                         cast(SFTPClientFile, self._dst),
@@ -914,9 +918,12 @@ class _SFTPFileCopier(_SFTPParallelIO[int]):
                         self._progress_handler(self._srcpath, self._dstpath,
                                                self._bytes_copied,
                                                self._total_bytes)
-            else:
-                data_end = 0
 
+                if self._sparse and data_end < self._total_bytes:
+                    # The source ends in a hole, which no data range covers.
+                    # Extend the destination to the full size of the source.
+                    await self._dst.write(b'\0', self._total_bytes - 1)
+            else:
                 async for self._offset, self._bytes_left in ranges:
                     data_end = max(data_end, self._offset + self._bytes_left)
 
